@@ -637,6 +637,9 @@ type wrapBuffer struct {
 	best []Output
 	// bestInLine tracks whether the current best is allocated from within line.
 	bestInLine bool
+	bestPrefix int
+	bestSuffix []Output
+	bestMarked bool
 }
 
 func (w *wrapBuffer) reset() {
@@ -658,6 +661,9 @@ func (w *wrapBuffer) reset() {
 	w.lineUsed = 0
 	w.best = nil
 	w.bestInLine = false
+	w.bestMarked = false
+	w.bestPrefix = 0
+	w.bestSuffix = w.bestSuffix[:0]
 	if w.lineExhausted {
 		w.lineExhausted = false
 		// Trigger the go slice growth heuristic by appending an element to
@@ -691,6 +697,9 @@ func (w *wrapBuffer) startLine() {
 	w.altAdvanceSave = 0
 	w.best = nil
 	w.bestInLine = false
+	w.bestMarked = false
+	w.bestPrefix = 0
+	w.bestSuffix = w.bestSuffix[:0]
 }
 
 // candidateLen returns the number of [Output]s in the current line wrapping candidate.
@@ -727,7 +736,26 @@ func (w *wrapBuffer) candidateAdvance() fixed.Int26_6 {
 // not modify the current candidate, but does ensure that the "best" candidate ends
 // with them.
 func (w *wrapBuffer) markCandidateBest(suffixes ...Output) {
-	neededLen := len(w.alt) + len(suffixes)
+	// the runs already in the candidate never change while the line is built (the
+	// candidate only grows, or is restored to a longer or equal prefix): remember
+	// the length and the suffix only, and build the line once in finalizeBest
+	w.bestPrefix = len(w.alt)
+	w.bestSuffix = append(w.bestSuffix[:0], suffixes...)
+	w.bestMarked = true
+}
+
+// hasBest returns whether there is currently a known valid line wrapping candidate
+// for the line.
+func (w *wrapBuffer) hasBest() bool {
+	return w.bestMarked && w.bestPrefix+len(w.bestSuffix) > 0
+}
+
+// finalizeBest commits the storage for the current best line and returns it.
+func (w *wrapBuffer) finalizeBest() []Output {
+	if !w.bestMarked {
+		return nil
+	}
+	neededLen := w.bestPrefix + len(w.bestSuffix)
 	if len(w.line[w.lineUsed:cap(w.line)]) < neededLen {
 		w.lineExhausted = true
 		w.best = make([]Output, neededLen)
@@ -736,18 +764,8 @@ func (w *wrapBuffer) markCandidateBest(suffixes ...Output) {
 		w.best = w.line[w.lineUsed : w.lineUsed+neededLen]
 		w.bestInLine = true
 	}
-	n := copy(w.best, w.alt)
-	copy(w.best[n:], suffixes)
-}
-
-// hasBest returns whether there is currently a known valid line wrapping candidate
-// for the line.
-func (w *wrapBuffer) hasBest() bool {
-	return len(w.best) > 0
-}
-
-// finalizeBest commits the storage for the current best line and returns it.
-func (w *wrapBuffer) finalizeBest() []Output {
+	n := copy(w.best, w.alt[:w.bestPrefix])
+	copy(w.best[n:], w.bestSuffix)
 	if w.bestInLine {
 		w.lineUsed += len(w.best)
 	}
